@@ -13,6 +13,11 @@ pub fn use_def(
     let mut ud = HashMap::new();
 
     for location in rd.keys() {
+        // The definitions a location uses are those that reach it, i.e. the
+        // union of what reaches the end of its predecessors. `rd[location]`
+        // is the state after the location: there, `x = x + 1` has already
+        // replaced the definitions of `x` it reads by itself.
+        let reaching = reaching_definitions::reaching_in(function, &rd, location)?;
         let defs = match location.function_location().apply(function).unwrap() {
             il::RefFunctionLocation::Instruction(_, instruction) => instruction
                 .operation()
@@ -20,7 +25,7 @@ pub fn use_def(
                 .unwrap_or_default()
                 .into_iter()
                 .fold(LocationSet::new(), |mut defs, scalar_read| {
-                    rd[location].locations().iter().for_each(|rd| {
+                    reaching.locations().iter().for_each(|rd| {
                         rd.function_location()
                             .apply(function)
                             .unwrap()
@@ -44,7 +49,7 @@ pub fn use_def(
                     condition.scalars().into_iter().fold(
                         LocationSet::new(),
                         |mut defs, scalar_read| {
-                            rd[location].locations().iter().for_each(|rd| {
+                            reaching.locations().iter().for_each(|rd| {
                                 if let Some(scalars_written) = rd
                                     .function_location()
                                     .apply(function)
